@@ -25,6 +25,8 @@ mod socket;
 mod stats;
 mod telemetry;
 mod utils;
+#[cfg(feature = "verif")]
+pub mod verif;
 
 use config::instrument_and_load_config;
 use election::{ElectionOutcome, elect_leader};
